@@ -23,6 +23,10 @@ CHECKS = {}  # filled from sim/props/*.py that exist and are listed in ENABLED
 ENABLED = json.load(open(os.path.join(HERE, "bin", "enabled.json")))
 
 TEXT = {
+    "C19": ("exploration",
+            "Seeded exploration: the driver draws an edit script over a small tree and renders the unified diff itself (0-3 context lines, several hunks, first/last-line additions, pure deletions, new/deleted/renamed files, omitted counts, git headers, section text with `+N` look-alikes, timestamps, missing final newline), so the post-image ranges are known by construction; the real rustfmt-format-diff reads it through a stdin pipe delivered in two different chunkings (short reads, EINTR) and spawns a recording stub whose status / fatal signal / absence is scripted. Oracles: recorded file arguments and --file-lines ranges equal the constructed ones, no child for an empty result, exit status follows the child, chunking never matters.",
+            "Trusts the driver's own diff rendering as ground truth; paths have at least N components and no spaces.",
+            "deterministic simulation: constructed-ground-truth workload over a faulty stdin stream and a scripted child, real binary", "s4 C19"),
     "C18": ("exploration",
             "Seeded exploration over abstract Cargo workspaces (1-4 members, virtual/rooted, seven target kinds, package and per-target editions, path dependencies inside/outside incl. transitive, shared source file, excluded member) x selections x working directories x pass-through options, with the real cargo-fmt, the real `cargo metadata` and a recording stub as $RUSTFMT whose per-invocation exit status / fatal signal is scripted, plus spawn failures (ENOENT, injected EACCES) and a failing cargo. Oracles over the recorded argument vectors and exit status against an independent full `cargo metadata` ground truth; an end-to-end lane runs the real rustfmt.",
             "Trusts cargo's own metadata as ground truth for targets/editions; accepts both readings of 'current package' at a multi-package workspace root.",
